@@ -5,14 +5,16 @@ SPEC = dict(
     rule="wire-level exchanges: every case of the ServeHTTP switch (read from http/service.go) and every Command_Type of the proto enum "
          "x 33 credential files (each single permission for a user, for '*', none, all, redefinition) x 4 presentations "
          "(none, wrong password, right password, unknown user), plus wrong-method / missing-payload / foreign-payload shapes and random files; "
+         "plus connections carrying 2-5 requests with the credentials changing between requests (right->wrong password, user A->user B, authorized->anonymous, reversed, random) "
+         "on one inter-node TCP connection (fenced by GET_NODE_META) and one keep-alive HTTP connection, every request judged on its own credentials; "
          "a case is non-trivial when the presented credentials are NOT authorized for the endpoint (or hold no permission at all on an endpoint "
-         "without a requirement); distinct by (endpoint, shape, file, presentation)",
+         "without a requirement); distinct by (file, sequence of (endpoint, shape, presentation))",
     exhaustive=False,
     trusted=["net/http request parsing and BasicAuth decoding, protobuf (un)marshalling and the mock stores are outside the model",
              "the credential decision is Model.C19's aa (checked against auth.CredentialsStore by C19)",
              "the per-endpoint required permission in Proofs/C18.v `required` and in the driver's c18Required are written from the documentation of the permissions"],
     assumptions=["the mock node is the leader (forwarding is C20's subject)", "request bodies are the well-formed ones listed in the driver"],
-    level_text="C18_enforced_partial / C18_unauthorized_is_silent / C18_unguarded_harmless_partial hold for every credential store, every credentials "
+    level_text="C18_enforced_partial / C18_enforced_file_partial / C18_unauthorized_is_silent / C18_connection_is_map hold for every credential store, every credentials "
                "presentation and every request shape, for every handler term of the table (finite table, checked by computation; stores and credentials unbounded); "
                "C18_hwm_refuted exhibits HIGHWATER_MARK_UPDATE acting for a caller without any permission.",
     level_note="handlers = terms of a 10-instruction language transcribed in source order; tie = differential run on every route and command type.",
